@@ -274,8 +274,14 @@ def run(ctx):
     opts = [(None, None, None, None), ('no"follow <x>', "_blank", None, None), (None, '"><script>', 12, None),
             ("nofollow", None, 3, ["tel:", "ftp:"]), (None, None, None, ["javascript:"])]
     step = ctx.size(2, 1)
-    for ti, t in enumerate(texts[::step]):
-        for rel, target, limit, schemes in (opts if ti % 2 == 0 else opts[:2]):
+    plan = [(t, o) for ti, t in enumerate(texts[::step]) for o in (opts if ti % 2 == 0 else opts[:2])]
+    # trim_url_limit cuts the ESCAPED text (model: trim_url after escape_t), so it can split an entity:
+    # the link text then holds a stray '&' that starts no complete entity.  '&' is not a markup
+    # character in the sense of the theorem (Clean = no '<', '>', '"', "'"); recorded as an observation.
+    for t, lim in (("http://a.co/?x=1&y=2", 18), ("http://a.co/<b>", 14), ("http://a.co/'q'", 13), ("www.x.org/a&b&c", 12)):
+        plan.append((t, (None, None, lim, None)))
+    for t, (rel, target, limit, schemes) in plan:
+        if True:
             case = {"filter": "urlize", "text": t, "rel": rel, "target": target, "trim_url_limit": limit, "extra_schemes": schemes}
             nontriv = any(c in t for c in META + '"') and ("." in t or "@" in t)
             ctx.case(sample=case if nontriv and len(ctx.samples) < 4 else None, key=("urlize", t, rel, target, limit, str(schemes)) if nontriv else None)
@@ -287,6 +293,10 @@ def run(ctx):
                 ctx.reject(case, f"urlize raised {type(ex).__name__}", None)
                 continue
             w = judge_urlize(t, r, rel, target, limit, escape)
+            if limit is not None and re.search(r"&[#a-z0-9]{0,5}\.\.\.</a>", str(r)):
+                ctx.extra.setdefault("urlize_trim_splits_entity", [])
+                if len(ctx.extra["urlize_trim_splits_entity"]) < 4:
+                    ctx.extra["urlize_trim_splits_entity"].append({"text": t, "limit": limit, "output": str(r)})
             if w is None:
                 # the filter adds the policy rel values and sorts them
                 rel2 = " ".join(sorted(set((rel or "").split()) | {"noopener"})) or None
